@@ -139,11 +139,11 @@ theorem len_beq_zero {α : Type} (l : List α) (h : l ≠ []) : (Go.len l == (0 
 theorem makeList_zero {α : Type} (z : α) : Go.makeList z (0 : Int) = .ok [] := rfl
 theorem makeList_16 : Go.makeList (0 : UInt8) (16 : Int) = .ok (List.replicate 16 0) := rfl
 
-abbrev LoopRes := Go.Loop (Option Go.Err × age_NoIdentityMatchError × Bytes) (Bytes × Option Go.Err)
+abbrev DecLoopRes := Go.Loop (Option Go.Err × age_NoIdentityMatchError × Bytes) (Bytes × Option Go.Err)
 
 /-- what the identity loop of the source leaves, for each outcome of the model's loop
     (`n`: the number of causes collected if nobody opened the file) -/
-def loopSpec (n : Nat) (l : LoopRes) : Except DecErr (Option Bytes) → Prop
+def loopSpec (n : Nat) (l : DecLoopRes) : Except DecErr (Option Bytes) → Prop
   | .error (.fatal _) => ∃ e, l = .ret ([], e) ∧ e ≠ none ∧ e ≠ age_ErrIncorrectIdentity
   | .error _ => False
   | .ok none => ∃ e enm', l = .next (e, enm', []) ∧ enm'.Errors.length = n
@@ -179,7 +179,7 @@ theorem loop2_spec {P : Prims} {ι : Type} (E : DecryptEnv P ι)
 
 theorem len_replicate16 : Go.len (List.replicate 16 (0 : UInt8)) = (16 : Int) := rfl
 
-theorem readFull_short (p : Bytes) (h : p.length < 16) :
+theorem dec_readFull_short (p : Bytes) (h : p.length < 16) :
     ((Go.io_ReadFullB p (16 : Int)).2.1 != none) = true := by
   have h16 : (16 : Int).toNat = 16 := rfl
   have hl : (p.take 16).length = p.length := by rw [List.length_take]; omega
@@ -254,7 +254,7 @@ theorem decrypt_tie_of_nil (P : Prims) {ι : Type} (E : DecryptEnv P ι)
           by_cases hmac : headerMAC P k hdr.stanzas = hdr.mac
           · simp only [hmac, beq_self_eq_true, ne_eq, not_true_eq_false, Bool.not_true, Bool.false_eq_true, if_false]
             by_cases hlen : payload.length < 16
-            · simp only [readFull_short payload hlen, hlen, if_true]
+            · simp only [dec_readFull_short payload hlen, hlen, if_true]
               exact ⟨_, rfl, rfl⟩
             · have hw := writeAt_nonce (payload.take 16) (by rw [List.length_take]; omega)
               simp only [readFull_ok payload hlen, hw, E.hKey, E.hNew, hlen, none_bne_none,
